@@ -55,6 +55,9 @@ TARGETS = {
 }
 
 
+SETUP_TARGETS = [("core", "asan")]
+
+
 class BuildError(Exception):
     pass
 
